@@ -1,5 +1,5 @@
 From Coq Require Extraction ExtrOcamlBasic.
-From PV Require Import Lib.Bytes Model.FileCache Spec.FreshLoad.
+From PV Require Import Lib.Bytes Model.FileCache Model.FileCacheLines Spec.FreshLoad.
 Open Scope N_scope.
 (* file keys below 8 stand for names ending in ".mk" *)
 Definition c20_is_mk (k : N) : bool := k <? 8.
@@ -29,6 +29,8 @@ Definition c20_events (s s' : state) (o : op) : N :=
   | _ => 0
   end.
 
+(* The model is run with convert_lines (Model/FileCacheLines.v): the C09 model of
+   convertToLogicalLines in the mode the Load asks for (round 5; before: convert_plain). *)
 (* per operation: did the protocol guard hold before it, the fresh read of the
    spec (loads only), the model's observation, coverage events; then the stop
    reason if any *)
@@ -39,10 +41,10 @@ Fixpoint c20_trace (md : mode) (s : state) (h : list op)
   | o :: t =>
     let g := guard_step s o in
     let fr := match o with
-              | OLoad fn opts => fresh_read convert_plain (st_disk s) fn opts
+              | OLoad fn opts => fresh_read convert_lines (st_disk s) fn opts
               | _ => None
               end in
-    match step convert_plain c20_is_mk md s o with
+    match step convert_lines c20_is_mk md s o with
     | Stop w => ([], Some w)
     | Ok (s', ob) => let '(l, w) := c20_trace md s' t in ((g, fr, ob, c20_events s s' o) :: l, w)
     end
